@@ -45,7 +45,8 @@ META = dict(
 def m_instances(ctx):
     base = dict(syms=["A"], qtys=[1, 2], prices=[8, 12], lev=2, fee=(1, 16), start=30, maxact=3, dups=False, coc=True)
     q = [dict(base, depth=4, maxord=4),
-         dict(base, syms=["A", "B"], qtys=[1], lev=4, start=8, depth=4, maxord=4, maxact=2)]
+         dict(base, syms=["A", "B"], qtys=[1], lev=4, start=8, depth=4, maxord=4, maxact=2),
+         dict(base, lev=10, fee=(0, 1), start=2, prices=[10, 16], maxact=2, depth=4, maxord=4)]
     t = [dict(base, depth=6, maxord=6),
          dict(base, prices=[8, 10, 12], depth=5, maxord=5, start=50),
          dict(base, syms=["A", "B"], qtys=[1, 2], lev=4, start=12, depth=4, maxord=4, maxact=2),
@@ -55,8 +56,14 @@ def m_instances(ctx):
 
 def r_instances(ctx):
     base = dict(syms=["A"], qtys=[1, 2], prices=[8, 12], lev=2, fee=(1, 16), start=30, maxact=3, dups=False, coc=True)
-    q = [dict(base, depth=3, maxord=3, maxact=2), dict(base, qtys=[2], depth=4, maxord=4, maxact=2, mode="isolated")]
-    t = [dict(base, depth=4, maxord=4),
+    # look-alike: one price, one quantity - a reduce-only and a regular order with the same (side, qty, price) rest
+    # together and are cancelled / filled in either order (the reserved tables hold anonymous rows);
+    # windfall: leverage 10 and a tiny wallet - a price move makes the available margin exceed the wallet balance and
+    # orders sized between the two must be accepted
+    look = dict(base, qtys=[1], prices=[8], mode="isolated")
+    wind = dict(base, lev=10, fee=(0, 1), start=2, prices=[10, 16], maxact=2)
+    q = [dict(base, depth=3, maxord=3, maxact=2), dict(look, depth=5, maxord=5), dict(wind, depth=4, maxord=4)]
+    t = [dict(base, depth=4, maxord=4), dict(look, depth=6, maxord=6), dict(wind, depth=5, maxord=5),
          dict(base, syms=["A", "B"], qtys=[1], lev=4, start=14, depth=3, maxord=3, mode="isolated"),
          dict(base, qtys=[1, 3], prices=[8, 10, 12], lev=1, fee=(0, 1), start=60, depth=3, maxord=3, maxact=2)]
     return ctx.pick(q, t)
@@ -78,7 +85,12 @@ def t_specs(ctx, rng, first_id, dups=0.0):
         # every third history uses decimal quantities 0.1 / 0.2 / 0.3 (QD = 10: not representable in binary; the
         # account is homogeneous in the quantity scale, so TLC sees quantity x 10 and money x 10)
         qd = 10 if i % 3 == 2 else 1
-        hdr = {"syms": syms, "FeeNum": fee[0], "FeeDen": fee[1], "Lev": lev, "Start": rng.choice([60, 100, 200]) // qd,
+        start = rng.choice([60, 100, 200]) // qd
+        if i % 4 == 1:
+            # windfall family: leverage 5/10/20 and a small wallet, so that unrealised profit lifts the available margin
+            # above the wallet balance and orders are sized between the two
+            lev, start, qd = rng.choice([5, 10, 20]), rng.choice([5, 6, 8]), 1
+        hdr = {"syms": syms, "FeeNum": fee[0], "FeeDen": fee[1], "Lev": lev, "Start": start,
                "CancelOnClose": True, "cur0": {s: rng.choice([8, 10, 12]) for s in syms}, "QD": qd,
                # margin formula and rejection do not depend on the leverage mode (FuturesExchange.available_margin never
                # reads it); liquidation is the simulator's business (C09): the same account equations must hold
